@@ -94,11 +94,11 @@ let register () =
         let st = !s in
         let log = Stdlib.List.sort compare (Stdlib.List.filter (fun e -> e.[0] <> 'L') (Stdlib.List.map show_entry st.Sparse.s_log)) in
         let ids = Stdlib.List.sort compare (Stdlib.List.map snd !calls) in
-        Printf.sprintf "%s;calls=%d;done=%s;saved=%s;file=%s;crashed=%d;stale=%d;ids=%s"
+        Printf.sprintf "%s;calls=%d;done=%s;saved=%s;file=%s;crashed=%d;ids=%s"
           (if log = [] then "-" else Stdlib.String.concat "," log)
           (int_of_nat st.Sparse.s_calls) (bits st.Sparse.s_done)
           (match st.Sparse.s_saved with None -> "none" | Some b -> bits b)
-          (hex_of_bytes st.Sparse.s_file) (if st.Sparse.s_crashed then 1 else 0) (if st.Sparse.s_stale then 1 else 0)
+          (hex_of_bytes st.Sparse.s_file) (if st.Sparse.s_crashed then 1 else 0)
           (if ids = [] then "-" else Stdlib.String.concat "," (Stdlib.List.map (fun h -> Stdlib.String.sub h 0 8) ids))
     | _ -> "ERR args");
   (* c10.range <rows> <start> <length> -> first:last *)
